@@ -2182,8 +2182,20 @@ size_t ZSTD_decompressStream(ZSTD_DStream* zds, ZSTD_outBuffer* output, ZSTD_inB
             if (zds->legacyVersion) {
                 RETURN_ERROR_IF(zds->staticSize, memory_allocation,
                     "legacy support is incompatible with static dctx");
-                {   size_t const hint = ZSTD_decompressLegacyStream(zds->legacyContext, zds->legacyVersion, output, input);
+                {   size_t const inPos = input->pos;
+                    size_t const outPos = output->pos;
+                    size_t const hint = ZSTD_decompressLegacyStream(zds->legacyContext, zds->legacyVersion, output, input);
                     if (hint==0) zds->streamStage = zdss_init;
+                    /* same watchdog as for frames of the current format (see the end of this function) */
+                    if (!ZSTD_isError(hint) && (hint != 0) && (input->pos == inPos) && (output->pos == outPos)) {
+                        zds->noForwardProgress ++;
+                        if (zds->noForwardProgress >= ZSTD_NO_FORWARD_PROGRESS_MAX) {
+                            RETURN_ERROR_IF(output->pos == output->size, noForwardProgress_destFull, "");
+                            RETURN_ERROR_IF(input->pos == input->size, noForwardProgress_inputEmpty, "");
+                        }
+                    } else {
+                        zds->noForwardProgress = 0;
+                    }
                     return hint;
             }   }
 #endif
